@@ -210,16 +210,16 @@ Proof.
 Qed.
 
 (* parse, then validate: the AST is the denoted one, the errors are exactly those of validating it *)
-Lemma run_case_at : forall k fa fp l ag,
+Lemma run_case_at : forall k fa fp fu l ag,
   wf_layout l ag ->
   Forall (decl_kind_ok k) (ag_decls ag) -> Forall (rule_kind_ok k) (ag_rules ag) ->
   decls_pre l 0 (decls_off l) 0 (ag_decls ag) ast_new None ->
   tok_inv (declared_b ag) (decls_eff l 0 (decls_off l) 0 (ag_decls ag) ast_new) ->
   forall v, complete_and_validate (ast_of fa fp l ag) = Done v ->
-  run_case true fa fp k (print l ag)
-  = Done (TResult (ast_of fa fp l ag) (match v with Some e => [e] | None => [] end) (warnings_of fa fp l ag)).
+  run_case true fa fp fu k (print l ag)
+  = Done (TResult (ast_of fa fp l ag) (match v with Some e => [e] | None => [] end) (warnings_of fa fp fu l ag)).
 Proof.
-  intros k fa fp l ag Hw Hkd Hkr Hpre Hinv v Hv. unfold run_case, yacc_new_gen.
+  intros k fa fp fu l ag Hw Hkd Hkr Hpre Hinv v Hv. unfold run_case, yacc_new_gen.
   rewrite (header_absent l ag (proj1 Hw)).
   destruct (parse_at k fa fp l ag Hw Hkd Hkr Hpre Hinv) as [n' Hp]. rewrite Hp. cbn [obind ast].
   rewrite Hv. cbn [obind app]. reflexivity.
@@ -227,10 +227,10 @@ Qed.
 
 Lemma yacc_parse_roundtrip : yacc_parse_roundtrip_stmt.
 Proof.
-  intros k fa fp l ag Hag Hlay.
+  intros k fa fp fu l ag Hag Hlay.
   pose proof (decls_pre_wf k l ag Hag) as Hpre. pose proof (decls_tok_inv l ag) as Hinv.
   pose proof (wf_agram_decl_kinds k ag Hag) as Hkd. pose proof (wf_agram_rule_kinds k ag Hag) as Hkr.
-  destruct (yacc_parse_total true fa fp k (print l ag)) as [r Hr].
+  destruct (yacc_parse_total true fa fp fu k (print l ag)) as [r Hr].
   assert (Hv : exists v, complete_and_validate (ast_of fa fp l ag) = Done v).
   { unfold run_case, yacc_new_gen in Hr. rewrite (header_absent l ag (proj1 Hlay)) in Hr.
     destruct (parse_at k fa fp l ag Hlay Hkd Hkr Hpre Hinv) as [n' Hp]. rewrite Hp in Hr. cbn [obind ast] in Hr.
@@ -243,8 +243,8 @@ Qed.
    without error — for the repaired action span ([fa = true]) and for the code as it is *)
 Lemma yacc_roundtrip : yacc_roundtrip_stmt.
 Proof.
-  intros k fa fp l ag Hag Hlay.
-  apply (run_case_at k fa fp l ag Hlay (wf_agram_decl_kinds k ag Hag) (wf_agram_rule_kinds k ag Hag)
+  intros k fa fp fu l ag Hag Hlay.
+  apply (run_case_at k fa fp fu l ag Hlay (wf_agram_decl_kinds k ag Hag) (wf_agram_rule_kinds k ag Hag)
            (decls_pre_wf k l ag Hag) (decls_tok_inv l ag) None).
   apply (validation_clean k); assumption.
 Qed.
